@@ -231,7 +231,8 @@ impl<M: ConvexCellMarker> Iterator for ConvexCellDecomposition<'_, M> {
     }
 }
 
-pub(crate) trait ConvexCellMarker: Clone + Send + Sync + Default {}
+/// Marker for the state of a [`ConvexCell`]: [`WithFaces`] or [`WithoutFaces`].
+pub trait ConvexCellMarker: Clone + Send + Sync + Default {}
 
 #[derive(Copy, Clone, Default)]
 pub struct WithoutFaces;
